@@ -4,7 +4,7 @@ real watchtower-client binary, traces judged by spec/Trace_Client.tla (incl. the
 import clientlib as L
 
 PID = "C13"
-CLASSES = ["accept", "sub_error", "reject", "garbage", "badsig", "malsig"]
+CLASSES = ["accept", "sub_error", "reject", "garbage", "broken", "badsig", "malsig"]
 
 
 def scenarios(rng, tier, wd, stats):
